@@ -150,7 +150,7 @@ def gen_conf(rng, tier):
         yield "async 64 10 10 %s" % ",".join(steps + DRAIN(nplain + 2))
 
 
-# statuses whose meaning differs between the two services; per history a set on which the translation of the model's codes is unambiguous
+# statuses whose meaning differs between the two services, in small sets
 EXT_SETS = [[0x101, 0x102, 0x104, 0x200, 0x301], [0x105, 0x106, 0x107, 0x201], [0x104, 0x202, 0x300], [0x999, 0x103, 0x105]]
 
 
@@ -191,7 +191,7 @@ CONFIG.pid = "C13"
 CONFIG.props_module = "KsiVerif.Props.C13"
 CONFIG.required_theorems = ["no_request_returned_twice", "returned_fresh", "reply_matched_by_full_id", "foreign_reply_ignored",
                              "add_cache_full", "add_accepts_into_free_slot", "recv_timeout_only_when_elapsed",
-                             "response_processing_keeps_cache", "J_add", "J_run", "J_grow", "grow_keeps_slots", "never_lost", "conserved", "counters_correct",
+                             "response_processing_keeps_cache", "completes_only_with_status_zero", "error_status_fails_its_own_request", "J_add", "J_run", "J_grow", "grow_keeps_slots", "never_lost", "conserved", "counters_correct",
                              "accepted_creates_one"]
 def gen_h(rng, tier):
     """the HTTP client's write callback: a reply delivered in 1..6 pieces of sizes around the buffer's growth step (255)"""
